@@ -382,6 +382,22 @@ def _matching(I, m, cls):
     return f
 
 
+def sep_fold(I, sep):
+    """prefix fold of (element + sep) over a list of strings (the registered one with this term, else a new one)"""
+    for f in I.config.get('folds', []):
+        if isinstance(f, PrefixConcat) and getattr(f, 'sep', None) == sep:
+            return f
+    dyn = I.st.notes.setdefault('dyn_folds', {})
+    key = ('sepcat', sep)
+    f = dyn.get(key)
+    if f is None:
+        lf = PrefixSum('seplen#' + str(len(sep)), lambda view, zi: z3.Length(view.field('value', zi)) + len(sep))
+        f = PrefixConcat('sepcat#' + str(len(sep)), lambda view, zi: z3.Concat(view.field('value', zi), z3.StringVal(sep)), lf)
+        f.sep = sep
+        dyn[key] = f
+    return f
+
+
 def sum_of(I, m):
     if m.src is None or m.kind != 'int':
         raise Unsupported("sum() of a generator over a symbolic range / of non-integers")
